@@ -1,6 +1,6 @@
 (* Lapsp — executable model of layers/apsp.go (Andromeda PSP header codec, 40 octets).  Definitions only.
    /repo/layers/apsp.go: DecodeFromBytes :54-72, SerializeTo :77-85, LayerContents :88-101 (re-encodes the fields; it does
-   NOT return BaseLayer.Contents), NextLayerType :109-112 (LayerTypeIPv4 always).
+   NOT return BaseLayer.Contents), NextLayerType :109-112 (LayerTypeIPv4 always), decodeAPSP :119-129.
    APSP has value receivers: SerializeTo cannot change the layer; there are no length or checksum fields. *)
 From GP Require Import Base Codec MiscLib.
 Open Scope Z_scope.
@@ -46,3 +46,13 @@ Definition ap_serialize (l : apsp) (payload : list Z) (fixl csum : bool) (junk :
   end.
 
 Definition ap_render_panics (l : apsp) : bool := false.
+
+(* decodeAPSP :119-129, the registered decoder: empty input is an error; a new VALUE is decoded with
+   gopacket.NilDecodeFeedback (the truncated flag never reaches the packet), added, and LayerTypeIPv4 handed to NextDecoder *)
+Definition ap_decode_fn (data : list Z) : apsp * bool * option Z * outcome unit * bool :=
+  if zlen data =? 0 then (ap_fresh, false, None, Err 3, false) else      (* :120-122 *)
+  let '(l, o, _) := ap_decode_into ap_fresh data in                       (* :123-126 *)
+  match o with
+  | Ok _ => (l, true, Some (ap_next l), Ok tt, false)                     (* :127-128 *)
+  | _ => (l, false, None, o, false)
+  end.
